@@ -83,7 +83,7 @@ func sitePath(site string) string {
 		return "nested"
 	case site == "cE1":
 		return "embedded"
-	case strings.HasPrefix(site, "Pre"), strings.HasPrefix(site, "Post"):
+	case strings.HasPrefix(strings.TrimPrefix(site, "hooks."), "Pre"), strings.HasPrefix(strings.TrimPrefix(site, "hooks."), "Post"):
 		return "hook"
 	case strings.HasPrefix(site, "Extra."):
 		return "additional-arg-getter"
